@@ -1,6 +1,6 @@
 """C02 — CAS guards against lost updates."""
 from rules.common import *  # noqa: F401,F403
-from rules import storefacts
+from rules import storefacts, dispatch
 from rules.storefacts import field_of, REQ_CAS
 
 LEVEL_TEXT = (
@@ -163,10 +163,10 @@ def r2(ctx):
             case = storefacts.set_case(p)
             rep.check(tform(ack) == tform(stored), "set[%s]:ack=stored" % case, "SetStatus.cas is the stored header.cas", "MemoryStore::set acknowledges cas %s but stores %s" % (short(ack, 100), short(stored, 100)), loc_s(w["event"].span))
     for meth, args, cpath in HANDLER_CAS:
-        hb = f.one(HANDLER + "::" + meth)
+        hb, hargs = dispatch.handler_body_args(ctx, meth, args[1])
         rep.analysed(hb)
         I = Interp(f, policy=memc_opaque)
-        paths = I.run(hb, [P(a) for a in args])
+        paths = I.run(hb, hargs)
         rep.evaluations += len(paths)
         n_ok = 0
         bad = None
